@@ -182,10 +182,10 @@ func cloneCfg(c Config) Config {
 
 // StreamSpec is one correspondence stream of a property check.
 type StreamSpec struct {
-	Name    string
-	Opts    Opts
-	NCfg    int
-	PerCfg  int
+	Name   string
+	Opts   Opts
+	NCfg   int
+	PerCfg int
 }
 
 // PropSpec says how a property reads the shared routing stream.
@@ -265,8 +265,8 @@ func reportSpecFailure(run *report.Run, p PropSpec, c *Case) {
 		o, cfg, req = c, *c.Cfg, c.Req
 	}
 	run.AddViolation(report.Violation{Kind: "counterexample",
-		What:  fmt.Sprintf("the real outcome falsifies Spec.%sHolds", strings.ToLower(p.ID)),
-		Case:  o.Lines(), Human: Human(&cfg, req), Model: o.ModelS, Real: o.RealS})
+		What: fmt.Sprintf("the real outcome falsifies Spec.%sHolds", strings.ToLower(p.ID)),
+		Case: o.Lines(), Human: Human(&cfg, req), Model: o.ModelS, Real: o.RealS})
 }
 
 func reportDisagreement(run *report.Run, p PropSpec, st StreamSpec, c *Case) {
